@@ -15,7 +15,7 @@ REQUIRED = ["S1_r_stb", "S3_zero_when_idle", "A1_first_chunk", "A1_snapshot", "A
 
 
 def n_cases(tier):
-    return 320 if tier == "quick" else 4800
+    return 1200 if tier == "quick" else 16000
 
 
 def gen_case(rng, tier, idx):
